@@ -4,6 +4,7 @@ import (
 	"encoding"
 	"encoding/json"
 	"fmt"
+	"sort"
 	"strings"
 	"sync"
 
@@ -76,7 +77,13 @@ func (s *store) Iterate(prefix string, iterFunc storage.StateIterFunc) (err erro
 	s.mtx.RLock()
 	defer s.mtx.RUnlock()
 
-	for k, v := range s.store {
+	keys := make([]string, 0, len(s.store))
+	for k := range s.store {
+		keys = append(keys, k)
+	}
+	sort.Strings(keys)
+	for _, k := range keys {
+		v := s.store[k]
 		if !strings.HasPrefix(k, prefix) {
 			continue
 		}
